@@ -410,10 +410,9 @@ def main(run):
 
     nac_cases = [("nacl_prim", (2, 2, 2)), ("zincblende_prim", (2, 2, 2)), ("cscl", (2, 2, 2)), ("nacl", (2, 2, 2))]
     picks = U.relabel_picks(rng, 5 if thorough else 3)
-    methods = [None, "wang", "gonze"]
-    rng.shuffle(methods)
-    for pi_, mname in enumerate(picks):
-        method = methods[pi_ % 3]
+    # the left-handed pick with both NAC methods, the others without NAC / with a random method
+    plan_rl = [(picks[0], "wang"), (picks[0], "gonze")] + [(m_, [None, rng.choice([None, "wang", "gonze"])][k_ % 2]) for k_, m_ in enumerate(picks[1:])]
+    for mname, method in plan_rl:
         for _try in range(20):
             name, dims = (nac_cases if method else U.RELABEL_CASES)[rng.randrange(len(nac_cases if method else U.RELABEL_CASES))]
             cell, cen = U.get_cell(name)
